@@ -23,6 +23,7 @@ too (last section: `recovered_axes_metres`, `local_within_10m_airborne/_surface`
 -/
 import Rs1090.Proofs.CprLocalSpec
 import Rs1090.Proofs.CprMetres
+import Rs1090.Proofs.CprFloat
 namespace Rs1090.Props.C05
 open Rs1090 Rs1090.Model.Cpr Rs1090.Spec.Cpr Rs1090.Proofs.Cpr
 
@@ -259,5 +260,90 @@ example : |rlat 17 1 (4981755 / 100000) - 49| < dlat 1 / 2 ∧
     report — the result (7.1057…, 96.985…) is an alias within half a zone of the reference -/
 example : airborneWithRef ⟨.odd, 21567, 81965⟩ 10 100
     = .ok (some ⟨(6868755 : Rat) / 966656, (92162025 : Rat) / 950272⟩) := by decide +kernel
+
+/-! ### the f64 argument, as theorems (no model of IEEE rounding)
+
+`airborne_position_with_reference` (cpr.rs l.315-372) and `surface_position_with_reference` (l.380-437) compute
+in `f64`.  `Proofs/CprFloat.lean`: `F64Exact q` — `q` is a finite binary64 value; `Rounding fl` — the standard
+model of rounding as a HYPOTHESIS on an abstract `fl : ℚ → ℚ` (identity on `F64Exact` values, monotone,
+`|fl x − x| ≤ |x|·2⁻⁵³ + 2⁻¹⁰⁷⁵` for `|x| ≤ 2^1023`; the real instance, IEEE-754 round-to-nearest, is trusted);
+`fDLat fl full m` (l.323-327 / 388-392), `fDLon fl full ni` (l.352 / 417), `fIdxArg fl ref d k` = the computed
+`0.5 + ref / d - cpr` and `fIdx` its floor (l.335, 360 / 400, 425), `fCoord fl d j k` = the computed
+`d * (j + cpr)` (l.337, 361 / 402, 426) — `fl` after EVERY operation; `full = 360` airborne, `90` surface.
+Unlike global decoding, the zone indices here depend on an arbitrary `f64` reference, so they are exact only
+away from the zone boundaries; what is exact unconditionally is stated by the `…_f64exact` theorems. -/
+
+open Rs1090.Proofs.CprFloat (F64Exact Rounding fDLat fDLon fIdxArg fIdx fCoord gIdxArg)
+
+/-- the rounding hypothesis is satisfiable (`fl = id`; the intended instance is IEEE round-to-nearest) -/
+theorem rounding_satisfiable : Rounding id := Proofs.CprFloat.rounding_id
+
+/-- l.320-321 / 385-386 `f64::from(x) / CPR_MAX`: a binary64 value for every 17-bit field -/
+theorem cpr_f64exact (n : ℕ) (hn : n < 131072) : F64Exact ((n : ℚ) / 131072) :=
+  Proofs.CprFloat.cpr_f64exact n hn
+
+/-- l.323 `360. / 60.`, l.388 `90. / 60.`, and l.337 / 402 `d_lat * (j + cpr_lat)` of an EVEN report: for every
+    integer `|j| ≤ 1024` (the index is at most 242 in magnitude for `|ref| ≤ 360`) the sum and both products are
+    binary64 values.  (Also l.361 / 426: `m + cpr_lon` is a binary64 value.) -/
+theorem local_even_f64exact (j : ℤ) (k : ℕ) (hj : |j| ≤ 1024) (hk : k < 131072) :
+    F64Exact (360 / 60 : ℚ) ∧ F64Exact (90 / 60 : ℚ) ∧ F64Exact ((j : ℚ) + (k : ℚ) / 131072) ∧
+    F64Exact (360 / 60 * ((j : ℚ) + (k : ℚ) / 131072)) ∧ F64Exact (90 / 60 * ((j : ℚ) + (k : ℚ) / 131072)) :=
+  Proofs.CprFloat.local_even_f64exact j k hj hk
+
+/-- hence, given the zone index, the latitude of an EVEN report is computed exactly by both decoders -/
+theorem local_lat_even_f64exact {fl : ℚ → ℚ} (R : Rounding fl) (j : ℤ) (k : ℕ) (hj : |j| ≤ 1024)
+    (hk : k < 131072) :
+    fCoord fl (fl (360 / 60)) j k = 360 / 60 * ((j : ℚ) + (k : ℚ) / 131072) ∧
+    fCoord fl (fl (90 / 60)) j k = 90 / 60 * ((j : ℚ) + (k : ℚ) / 131072) :=
+  Proofs.CprFloat.fCoord_even_eq R j k hj hk
+
+/-- **Latitude of the local decoders under rounding** (`full = 360` airborne / `90` surface, either parity, any
+    reference with `|latRef| ≤ 360`): (1) the computed floor argument is within `10⁻¹²` of the exact
+    `1/2 + latRef/d_lat − cpr_lat`; (2) hence the computed zone index `j` is the rational model's unless that
+    exact argument lies within `10⁻¹²` of an integer; (3) with the model's index the computed latitude is
+    within `10⁻¹²` degrees of the model's `latOf` (`withRef_eq`: the latitude `withRef` returns). -/
+theorem local_lat_float_close {fl : ℚ → ℚ} (R : Rounding fl) (full : ℚ) (hf : full = 360 ∨ full = 90)
+    (m : Msg) (hm : m.lat < 131072) (latRef : ℚ) (href : |latRef| ≤ 360) :
+    |fIdxArg fl latRef (fDLat fl full m) m.lat - gIdxArg latRef (dLatOf full m) m.lat| ≤ 1 / 10 ^ 12 ∧
+    (((⌊gIdxArg latRef (dLatOf full m) m.lat⌋ : ℤ) : ℚ) + 1 / 10 ^ 12 ≤ gIdxArg latRef (dLatOf full m) m.lat →
+      gIdxArg latRef (dLatOf full m) m.lat + 1 / 10 ^ 12
+        < ((⌊gIdxArg latRef (dLatOf full m) m.lat⌋ : ℤ) : ℚ) + 1 →
+      fIdx fl latRef (fDLat fl full m) m.lat = ⌊gIdxArg latRef (dLatOf full m) m.lat⌋) ∧
+    |fCoord fl (fDLat fl full m) ⌊gIdxArg latRef (dLatOf full m) m.lat⌋ m.lat - latOf full m latRef|
+      ≤ 1 / 10 ^ 12 := by
+  obtain ⟨h1, h2, h3⟩ := Proofs.CprFloat.fDLat_err R full hf m
+  rw [Proofs.CprFloat.latOf_eq]
+  exact Proofs.CprFloat.local_axis R m.lat hm h2 h3 h1 href
+
+/-- **Longitude of the local decoders under rounding**, at any latitude `lat` (in particular the decoded one),
+    any reference with `|lonRef| ≤ 360`: `d_lon = full / ni` with `ni = max(nl(lat) − i, 1) ∈ 1..59` exact,
+    one rounding for the quotient; the same three statements for `m` and the longitude `lonOf`. -/
+theorem local_lon_float_close {fl : ℚ → ℚ} (R : Rounding fl) (full : ℚ) (hf : full = 360 ∨ full = 90)
+    (m : Msg) (hm : m.lon < 131072) (lat lonRef : ℚ) (href : |lonRef| ≤ 360) :
+    |fIdxArg fl lonRef (fDLon fl full (niOf (fmt m) lat)) m.lon - gIdxArg lonRef (dLonOf full m lat) m.lon|
+      ≤ 1 / 10 ^ 12 ∧
+    (((⌊gIdxArg lonRef (dLonOf full m lat) m.lon⌋ : ℤ) : ℚ) + 1 / 10 ^ 12 ≤ gIdxArg lonRef (dLonOf full m lat) m.lon →
+      gIdxArg lonRef (dLonOf full m lat) m.lon + 1 / 10 ^ 12
+        < ((⌊gIdxArg lonRef (dLonOf full m lat) m.lon⌋ : ℤ) : ℚ) + 1 →
+      fIdx fl lonRef (fDLon fl full (niOf (fmt m) lat)) m.lon = ⌊gIdxArg lonRef (dLonOf full m lat) m.lon⌋) ∧
+    |fCoord fl (fDLon fl full (niOf (fmt m) lat)) ⌊gIdxArg lonRef (dLonOf full m lat) m.lon⌋ m.lon
+        - lonOf full m lat lonRef| ≤ 1 / 10 ^ 12 := by
+  obtain ⟨n1, n59⟩ := Proofs.CprFloat.niOf_range (fmt m) lat
+  obtain ⟨h1, h2, h3⟩ := Proofs.CprFloat.fDLon_err R full hf _ n1 n59
+  rw [Proofs.CprFloat.lonOf_eq]
+  exact Proofs.CprFloat.local_axis R m.lon hm h2 h3 h1 href
+
+/-- hypotheses satisfiable and statement non-trivial: the repository's test report
+    (`decode_airporne_position_with_reference`, 8D40058B58C901375147EFD09357, even, reference 49.0 / 6.0): the exact
+    floor argument is 8.3626…, more than `10⁻¹²` away from an integer, so the computed index is `j = 8`
+    for every `fl` satisfying the hypothesis -/
+example {fl : ℚ → ℚ} (R : Rounding fl) : fIdx fl 49 (fDLat fl 360 ⟨.even, 39848, 83951⟩) 39848 = 8 := by
+  have h := (local_lat_float_close R 360 (Or.inl rfl) ⟨.even, 39848, 83951⟩ (by decide) 49
+    (by rw [abs_le]; constructor <;> norm_num)).2.1
+  have e : gIdxArg 49 (dLatOf 360 ⟨.even, 39848, 83951⟩) (Msg.lat ⟨.even, 39848, 83951⟩) = 411041 / 49152 := by
+    unfold gIdxArg dLatOf; norm_num
+  have f : ⌊(411041 / 49152 : ℚ)⌋ = 8 := by rw [Int.floor_eq_iff]; norm_num
+  rw [e, f] at h
+  exact h (by norm_num) (by norm_num)
 
 end Rs1090.Props.C05
